@@ -37,12 +37,12 @@ def parse_out(path):
         if c == "P":
             cur = dict(id=line[2:].strip(), states={}, trans={}, ttext={}, errors=[])
             res.append(cur)
-        elif c == "S":
+        elif c == "S" and line[1] == " ":
             _, sid, rest = line.rstrip("\n").split(" ", 2)
             canon, _, en = rest.rpartition("|E:")
             enl = [tuple(map(int, e.split("/"))) for e in en.split(",") if e]
             cur["states"][int(sid)] = (canon, enl)
-        elif c == "T":
+        elif c == "T" and line[1] == " ":
             parts = line.rstrip("\n").split(" ", 4)
             a, k = parts[2].split("/")
             cur["trans"][(int(parts[1]), (int(a), int(k)))] = int(parts[3])
@@ -52,7 +52,7 @@ def parse_out(path):
             cur["errors"].append(line.strip())
         elif c == "R":
             p = line.split()
-            cur.update(paths=int(p[1]), nstates=int(p[2]), ntrans=int(p[3]), status=p[4])
+            cur.update(paths=int(p[1]), nstates=int(p[2]), ntrans=int(p[3]), status=p[4], nexec=int(p[5]) if len(p) > 5 else 0)
     return res
 
 
